@@ -246,8 +246,8 @@ def sent_legacy(helper, args, verbose=True, with_port=True, stall=0):
     return raw, exc
 
 
-def sent_ebb3(method, args, motor_state=None, connected=True, stall=0):
-    board = EBB3Board(future=True, nickname="Axi")
+def sent_ebb3(method, args, motor_state=None, connected=True, stall=0, version="3.0.2"):
+    board = EBB3Board(version=version, future=True, nickname="Axi")
     if motor_state is not None:
         board.set_motor_state(*motor_state)
     obj, port, _board = new_object(_Stall(stall) if stall else None,
@@ -323,7 +323,22 @@ def check_case(layer, helper, args, expected_fn, motor_state=None):
     if got != want:
         key = dropped_zero_key(layer, helper, args, want, got) or f"text:{layer}.{helper}"
         return [(key, f"{desc} sent {got!r}; the documented command is {want!r}")]
+    if layer == "ebb3":
+        # the documented text does not depend on *which* supported firmware the board reported
+        # when it was connected (the object remembers the version; no helper should consult it)
+        seen = _VERSIONED.get(helper, 0)
+        if helper == "motors_enable" or seen < STALL_BUDGET:
+            _VERSIONED[helper] = seen + 1
+            for version in ("3.0.3", "3.2.0", "10.1.0"):
+                raw_v, exc_v, _o = sent_ebb3(helper, args, motor_state, version=version)
+                if exc_v is not None or raw_v != raw:
+                    return [(f"firmware:{layer}.{helper}", f"{desc} on a board that reported "
+                             f"firmware {version} sent {texts(raw_v)!r} (exception {exc_v!r}); "
+                             f"on a 3.0.2 board {texts(raw)!r}")]
     return slow_board_case(layer, helper, args, motor_state, raw, desc)
+
+
+_VERSIONED = {}
 
 
 def slow_board_case(layer, helper, args, motor_state, prompt_raw, desc):
@@ -437,6 +452,7 @@ def _chunk(args):
     layer, helper, arg_list = args
     part = core.Part()
     _STALLED.clear()                    # the slow-board budget is per chunk (deterministic)
+    _VERSIONED.clear()
     table = legacy_table(_CTX) if layer == "legacy" else ebb3_table(_CTX)
     expected_fn = table[helper][1]
     for call_args in arg_list:
